@@ -259,7 +259,7 @@ def orbit_triples(ck, rng, tier, seed):
     for form in ("scalar", "array", "inplace"):
         p = os.path.join(wd, "orb_%s.json" % form)
         json.dump({"form": form, "behaviours": walks}, open(p, "w"))
-        env = dict(os.environ, PYTHONPATH=VERIF, PYTHONHASHSEED="0", NUMBA_NUM_THREADS="1", NUMBA_CACHE_DIR=core.private_numba_cache(form))
+        env = dict(os.environ, PYTHONPATH=core.pythonpath(), PYTHONHASHSEED="0", NUMBA_NUM_THREADS="1", NUMBA_CACHE_DIR=core.private_numba_cache(form))
         jobs.append((form, p, subprocess.Popen([PY, "-m", "harness.orbit_driver", p], cwd=VERIF, env=env, stdin=subprocess.DEVNULL,
                                                stdout=open(p + ".log", "w"), stderr=subprocess.STDOUT)))
     total = 0
